@@ -38,6 +38,12 @@ def hostModel : List String → String
       s!"L={bit (isLoopback h)} I={bit (isInternal h)} Q={bit (subjectQualifiesForPublicCert h)} ip={ip}"
   | _ => "bad-case"
 
+/-- the configured ports of a case: `<http>/<https>` -/
+def parsePorts (s : String) : Option Ports :=
+  match s.splitOn "/" with
+  | [h, t] => if h.toNat?.isSome && t.toNat?.isSome then some { http := h.toUTF8.toList, https := t.toUTF8.toList } else none
+  | _ => none
+
 /-! ### c15.qualify -/
 
 def parseQualify : List String → Option Site
@@ -49,18 +55,21 @@ def parseQualify : List String → Option Site
            hasManager := bs[3]! == '1', email := ← unq e }
   | _ => none
 
-def qualifyModel (f : List String) : String :=
-  match parseQualify f with
-  | none => "bad-case"
-  | some c => bit (qualifies c)
+def qualifyModel : List String → String
+  | ps :: f => match parsePorts ps, parseQualify f with
+    | some P, some c => bit (qualifiesP P c)
+    | _, _ => "bad-case"
+  | _ => "bad-case"
 
 def qualifyJudge (f : List String) (out : String) : String :=
-  match parseQualify f with
-  | none => "bad:unparsable:case"
-  | some c =>
-    if out == "1" then Casket.AutoHTTPSSpec.qualifyVerdict c true
-    else if out == "0" then Casket.AutoHTTPSSpec.qualifyVerdict c false
-    else "bad:unparsable:" ++ out
+  match f with
+  | ps :: f => match parsePorts ps, parseQualify f with
+    | some P, some c =>
+      if out == "1" then Casket.AutoHTTPSSpec.qualifyVerdict P c true
+      else if out == "0" then Casket.AutoHTTPSSpec.qualifyVerdict P c false
+      else "bad:unparsable:" ++ out
+    | _, _ => "bad:unparsable:case"
+  | _ => "bad:unparsable:case"
 
 /-! ### c15.addr -/
 
@@ -72,15 +81,29 @@ def errName : AddrErr → String
   | .outOfModel => "out-of-model"
 
 def addrModel : List String → String
-  | [a] => match unq a with
-    | none => "bad-case"
-    | some a =>
-      match standardizeAddress a with
+  | [ps, a] => match parsePorts ps, unq a with
+    | some P, some a =>
+      match standardizeAddressP P a with
       | .error e => errName e
       | .ok a =>
         let a := a.normalize
         "|".intercalate [q a.scheme, q a.host, q a.port, q a.path, q a.key, q a.vhost]
+    | _, _ => "bad-case"
   | _ => "bad-case"
+
+def addrJudge (f : List String) (out : String) : String :=
+  match f with
+  | [ps, a] => match parsePorts ps, unq a with
+    | some P, some a =>
+      if out == "error:convention" then Casket.AutoHTTPSSpec.addrVerdict P a none
+      else if out.startsWith "error:" || out == "out-of-model" then "ok"
+      else match out.splitOn "|" with
+        | [s, h, p, _, _, _] => match unq s, unq h, unq p with
+          | some s, some h, some p => Casket.AutoHTTPSSpec.addrVerdict P a (some (s, h, p))
+          | _, _, _ => "bad:unparsable:" ++ out
+        | _ => "bad:unparsable:" ++ out
+    | _, _ => "bad:unparsable:case"
+  | _ => "bad:unparsable:case"
 
 /-! ### c15.sites -/
 
@@ -131,28 +154,28 @@ def showSite (d : Option (Site × Bool × Site)) (f : Site) : String :=
   | none, none => s!"d=-|m=-|{fin}|r=middleware-count-0"
 
 def sitesModel : List String → String
-  | [blocks] => match parseBlocks blocks with
-    | none => "bad-case"
-    | some ds =>
-      match inspect (ds.map (·.addr)) with
+  | [ps, blocks] => match parsePorts ps, parseBlocks blocks with
+    | some P, some ds =>
+      match inspectP P (ds.map (·.addr)) with
       | .error e => errName e
       | .ok addrs =>
         let decl := (addrs.zip ds).map fun (a, d) => siteOf a d.bind d.tls
         if decl.any directiveError then "error:directive" else
-        let marked := markQualified decl
-        let en := enableAutoHTTPS marked
-        let fin := pipeline decl
+        let marked := markQualifiedP P decl
+        let en := enableAutoHTTPSP P marked
+        let fin := pipelineP P decl
         let n := decl.length
         let lines := (List.range fin.length).map fun i =>
           let f := fin[i]!
           if i < n then showSite (some (decl[i]!, marked[i]!.managed, en[i]!)) f else showSite none f
         ";".intercalate lines
+    | _, _ => "bad-case"
   | _ => "bad-case"
 
 open Casket.AutoHTTPSSpec in
 /-- the declared site as the spec reads it from the input text -/
-def specDeclared (d : Decl) : Site :=
-  let (s, h, p) := readAddr d.addr
+def specDeclared (P : Ports) (d : Decl) : Site :=
+  let (s, h, p) := readAddrP P d.addr
   -- the host as Address.Normalize writes an IP literal
   let h := match parseIP h with | some ip => ipString ip | none => h
   applyTLS d.tls { scheme := s, host := h, port := p, listen := d.bind }
@@ -187,10 +210,11 @@ def parseRec (s : String) : Option Rec :=
 open Casket.AutoHTTPSSpec in
 def sitesJudge (f : List String) (out : String) : String :=
   match f with
-  | [blocks] =>
-    match parseBlocks blocks with
-    | none => "bad:unparsable:case"
-    | some ds =>
+  | [ps, blocks] =>
+    match parsePorts ps, parseBlocks blocks with
+    | none, _ => "bad:unparsable:case"
+    | _, none => "bad:unparsable:case"
+    | some P, some ds =>
       if out.startsWith "error:" || out == "out-of-model" then "ok"
       else
         match (out.splitOn ";").mapM parseRec with
@@ -202,13 +226,13 @@ def sitesJudge (f : List String) (out : String) : String :=
           else
             let os : Option (List Observed) := (declared.zip ds).mapM fun (p, d) => do
               let m ← p.managed
-              pure { declared := specDeclared d, managed := m, ePort := p.ePort, fScheme := p.fScheme, fHost := p.fHost, fPort := p.fPort, fEnabled := p.fEnabled }
+              pure { declared := specDeclared P d, managed := m, ePort := p.ePort, fScheme := p.fScheme, fHost := p.fHost, fPort := p.fPort, fEnabled := p.fEnabled }
             match os with
             | none => "bad:unparsable:managed flag"
             | some os =>
               let rs : List ObservedRedirect := synth.map fun p =>
                 { fHost := p.fHost, fPort := p.fPort, fEnabled := p.fEnabled, target := (unq p.loc).bind probeTarget }
-              sitesVerdict os rs
+              sitesVerdict P os rs
   | _ => "bad:unparsable:case"
 
 /-! ### c15.inspect -/
@@ -238,34 +262,34 @@ def inspectJudge (f : List String) (out : String) : String :=
 /-! ### c15.redirect -/
 
 def redirectModel : List String → String
-  | [p, h, t] => match unq p, unq h, unq t with
-    | some p, some h, some t =>
+  | [ps, p, h, t] => match parsePorts ps, unq p, unq h, unq t with
+    | some P, some p, some h, some t =>
       match requestURI t with
       | .unreadable => "unreadable-request"
       | .outOfModel => "out-of-model"
       | .ok uri =>
         -- the first field is the port of the HTTPS site; redirPlaintextHost derives the handler's redirPort from it
-        s!"{redirStatus} {q (redirLocation (capturedPort p) h uri)}"
-    | _, _, _ => "bad-case"
+        s!"{redirStatus} {q (redirLocation (capturedPortP P p) h uri)}"
+    | _, _, _, _ => "bad-case"
   | _ => "bad-case"
 
 def redirectJudge (f : List String) (out : String) : String :=
   match f with
-  | [p, h, t] => match unq p, unq h, unq t with
-    | some p, some h, some t =>
+  | [ps, p, h, t] => match parsePorts ps, unq p, unq h, unq t with
+    | some P, some p, some h, some t =>
       if out == "unreadable-request" || out == "out-of-model" then "ok"
       else match out.splitOn " " with
         | [st, loc] => match st.toNat?, unq loc with
-          | some st, some loc => Casket.AutoHTTPSSpec.redirectVerdict p h t st loc
+          | some st, some loc => Casket.AutoHTTPSSpec.redirectVerdict P p h t st loc
           | _, _ => "bad:unparsable:" ++ out
         | _ => "bad:unparsable:" ++ out
-    | _, _, _ => "bad:unparsable:case"
+    | _, _, _, _ => "bad:unparsable:case"
   | _ => "bad:unparsable:case"
 
 def streams : List Driver.Stream := [
   { name := "c15.host", model := hostModel, judge := fun _ _ => "ok" },
   { name := "c15.qualify", model := qualifyModel, judge := qualifyJudge },
-  { name := "c15.addr", model := addrModel, judge := fun _ _ => "ok" },
+  { name := "c15.addr", model := addrModel, judge := addrJudge },
   { name := "c15.inspect", model := inspectModel, judge := inspectJudge },
   { name := "c15.sites", model := sitesModel, judge := sitesJudge },
   -- the same site sets through the REAL activateHTTPS (reached via the parsing-callback registry): same answer, same judge
